@@ -474,3 +474,54 @@ func init() {
 		return r
 	}
 }
+
+func init() {
+	// uuid.UUID.String(): the canonical hex form, an injective function of the 16 bytes.
+	libModels["github.com/pborman/uuid.(UUID).String"] = func(fr *frame, in ssa.Instruction, c *ssa.CallCommon, args []Val, st *State, reach string) Val {
+		fc := fr.fc
+		fc.declareFun("uuid$hex", []string{SString}, SString)
+		if !fc.declSet["uuid$hex$inj"] {
+			fc.declSet["uuid$hex$inj"] = true
+			fc.decls = append(fc.decls, "(declare-fun uuid$unhex (String) String)")
+			fc.decls = append(fc.decls, "(assert (forall ((x String)) (! (= (uuid$unhex (uuid$hex x)) x) :pattern ((uuid$hex x)))))")
+		}
+		return Term{"(uuid$hex " + tArg(args, 0).S + ")", SString}
+	}
+}
+
+func init() {
+	// sort.Strings(x) sorts in place. Slices are values in this model, so the only supported shape is
+	// `sort.Strings(*p)`: the sorted slice is written back to *p. Contract (assumed): same length, a
+	// permutation (every old element occurs in the result and vice versa), ascending order.
+	libModels["sort.Strings"] = func(fr *frame, in ssa.Instruction, c *ssa.CallCommon, args []Val, st *State, reach string) Val {
+		fc := fr.fc
+		ld, ok := c.Args[0].(*ssa.UnOp)
+		if !ok {
+			fc.unsupported("sort.Strings on a slice that is not loaded from a pointer (in-place mutation of slice values is not modelled)")
+			return nil
+		}
+		old := tArg(args, 0)
+		nw := fc.fresh("sorted", old.Sort)
+		at := func(s Term, j string) string { return fc.slcAt(s, j).S }
+		fc.fact(fmt.Sprintf("(and (= (soff %s) 0) (= (slen %s) (slen %s)))", nw.S, nw.S, old.S))
+		fc.fact(fmt.Sprintf("(forall ((j Int)) (! (=> (and (<= 0 j) (< j (slen %s))) (exists ((i Int)) (and (<= 0 i) (< i (slen %s)) (= %s %s)))) :pattern (%s)))", nw.S, old.S, at(nw, "j"), at(old, "i"), at(nw, "j")))
+		fc.fact(fmt.Sprintf("(forall ((i Int)) (! (=> (and (<= 0 i) (< i (slen %s))) (exists ((j Int)) (and (<= 0 j) (< j (slen %s)) (= %s %s)))) :pattern (%s)))", old.S, nw.S, at(nw, "j"), at(old, "i"), at(old, "i")))
+		if fc.c == nil || fc.c.Opts["strings"] != "opaque" {
+			fc.fact(fmt.Sprintf("(forall ((i Int) (j Int)) (! (=> (and (<= 0 i) (< i j) (< j (slen %s))) (str.<= %s %s)) :pattern (%s %s)))", nw.S, at(nw, "i"), at(nw, "j"), at(nw, "i"), at(nw, "j")))
+		}
+		// write back
+		p := fr.val(ld.X)
+		switch pt := p.(type) {
+		case Term:
+			fr.storeRef(st, pt, ptrElem(ld.X.Type()), nw, reach, in.Pos())
+		case *PtrField:
+			a := fc.heapGet(st, pt.Arr, arr(SInt, pt.Sort))
+			fr.frameCheck(st, pt.Arr, pt.Base, reach, in.Pos())
+			fc.heapSet(st, pt.Arr, Term{store(a.S, pt.Base.S, nw.S), a.Sort})
+		default:
+			fc.unsupported("sort.Strings write-back through %T", p)
+		}
+		return nil
+	}
+	libTouches["sort.Strings"] = []string{"D$__string"}
+}
